@@ -284,6 +284,17 @@ fn run_vault(plan: &Plan, lib: &dyn Lib, rec: &mut Rec) {
         for cd in codecs_of(s.ty).into_iter().filter(|c| !big || matches!(c, Codec::Bytes | Codec::BytesBox | Codec::Bare | Codec::JsonReader)) {
             let key = format!("{}:{}:{}", i, s.ty.name(), cd.name());
             let enc = c.at(v1, || to_codec(rec, lib, g, s, cd));
+            // a write that fails on the CALLER's side part-way (the vault's disk is full, the socket closed): the value is
+            // handed to a sink that takes k bytes and then errors. The caller handles the error and encodes again.
+            if x.chance(1, 3) && codecs_of(s.ty).contains(&Codec::Json) {
+                if let Some(j) = to_codec(rec, lib, g, s, Codec::Json).first() {
+                    let n = j.len() as u64;
+                    let k = match x.below(5) { 0 => 0, 1 => 1, 2 => n - 1, 3 => n / 2, _ => x.below(n) };
+                    let o = rec.call(lib, g, Op::EncodeInterrupted, &[&[s.ty as u8], &[s.codec as u8], &s.bytes, &u64b(k)]);
+                    rec.fault("caller-sink-fails-mid-encoding");
+                    rec.expect("C15", "value-encodes", o.flag() == Some(true), || format!("{} | a sink that fails after {} of {} bytes: {:?}", s.ty.name(), k, n, o.kind()));
+                }
+            }
             let enc2 = to_codec(rec, lib, g, s, cd);
             rec.case(&[15, g as u64, s.ty as u64, cd as u64, s.label.len() as u64 + s.label.as_bytes()[0] as u64 * 17], s.label != "generated");
             let Some(e) = enc.first().map(|b| b.to_vec()) else {
@@ -519,6 +530,45 @@ fn run_byz_encoder(plan: &Plan, lib: &dyn Lib, rec: &mut Rec) {
             }
             if is_share {
                 continue;
+            }
+            // cross-group derivatives: the honest encoding of an artefact of the OTHER group assignment, decoded by its own
+            // type a moment ago (nothing hostile about that), then zero-extended / halved to this type's point length and
+            // put in this value's point position. The reference model says which of them are points of this group (none, in
+            // practice); every other one is refused.
+            if matches!(cd, Codec::Bytes | Codec::Json) && positions.len() == 1 {
+                let (off, len) = positions[0];
+                let good = s.bytes[off..off + len].to_vec();
+                let o = if g == Grp::G1 { Grp::G2 } else { Grp::G1 };
+                for i in 0..4u64 {
+                    let salt = [b"cross-group-".as_slice(), &u64b(plan.seed ^ i)].concat();
+                    let Some(sk_o) = rec.call(lib, o, Op::KeyFromHash, &[&salt]).first().map(|b| b.to_vec()) else { continue };
+                    let Some(pk_o) = rec.call(lib, o, Op::PublicKey, &[&sk_o]).first().map(|b| b.to_vec()) else { continue };
+                    let Some(sig_o) = rec.call(lib, o, Op::Sign, &[&sk_o, &[0u8], b"cross"]).first().map(|b| b.to_vec()) else { continue };
+                    // (honest type, honest encoding, its point)
+                    let honest: [(Ty, &Vec<u8>, Vec<u8>); 2] = [(Ty::PublicKey, &pk_o, pk_o.clone()), (Ty::Signature, &sig_o, sig_o[1..].to_vec())];
+                    for (hty, henc, pt) in honest.iter() {
+                        let cands: Vec<(&str, Vec<u8>)> = if pt.len() < len {
+                            vec![("zero-extended", [pt.as_slice(), &vec![0u8; len - pt.len()]].concat()), ("zero-prefixed", [vec![0u8; len - pt.len()].as_slice(), pt].concat()), ("doubled", [pt.as_slice(), pt].concat())]
+                        } else if pt.len() > len {
+                            vec![("first-half", pt[..len].to_vec()), ("second-half", pt[len..].to_vec())]
+                        } else {
+                            continue; // the same point group: an honest point of it is a valid point here too
+                        };
+                        for (what, cand) in cands {
+                            if Pt::from_bytes(&cand).is_some() {
+                                rec.probe("cross-group-derivative-is-a-valid-point");
+                                continue;
+                            }
+                            let Some(forged) = forge_point_in_codec(rec, lib, g, s.ty, cd, &s.bytes, &good, &cand) else { continue };
+                            // the honest decode by the other group's own type, right before
+                            let ok = recode(rec, lib, o, *hty, Codec::Bytes, Codec::Json, henc).is_ok();
+                            rec.expect("C16", "honest-encoding-accepted", ok, || format!("cross-group {} | the honest {} of the other group was refused by its own type", s.ty.name(), hty.name()));
+                            rec.fault("byz-cross-group-derivative");
+                            let out = recode(rec, lib, g, s.ty, cd, Codec::Bytes, &forged);
+                            rec.expect("C16", "malformed-encoding-rejected", !out.is_ok(), || format!("cross-group-{} {} {} | the other group's honest {} ({}), {}, was decoded as this group's point right after its honest decode", what, s.ty.name(), cd.name(), hty.name(), short(pt), what));
+                        }
+                    }
+                }
             }
             // (a)-(c): every point position replaced by the Byzantine encoder
             for (pi, (off, len)) in positions.iter().enumerate() {
